@@ -6,7 +6,7 @@ name, prop, change, needs = sys.argv[1:5]
 note = sys.argv[5] if len(sys.argv) > 5 else ""
 d = os.path.join(os.path.dirname(os.path.abspath(__file__)), "..", "seeded", name)
 log = [l.rstrip() for l in open(os.path.join(d, "confirm.log")) if l.strip()]
-last = [l for l in log if l.startswith("check ")]
+last = [l for l in log if l.startswith("check " + prop + ":")] or [l for l in log if l.startswith("check ")]
 res = "missed"
 m = re.search(r"replays/\w+/([^ ]+?)-[0-9a-f]{10}\.json", last[-1]) if last else None
 if last and "exit 1" in last[-1] and m:
